@@ -1451,6 +1451,12 @@ def record_spec(chk, spec, msgs, findings, conf, falsify_jobs):
     if unsupported:
         chk.obligation(pre + 'supported', spec.name, 'checker', report.ERROR, 0.0,
                        detail='the real code left the supported subset: %s' % '; '.join(unsupported)[:1500])
+        # nothing is claimed for this function (its paths are not all covered); its clauses are still evaluated on the real code over the native
+        # battery (bounded stand-in): a failure reproduced there is a violation, which dominates the checker error
+        if spec.native:
+            falsify_jobs.append({'oname': pre + '*', 'spec': spec, 'clause': '*', 'tsum': 0.0, 'detail': {'unsupported': unsupported[:3]}, 'bad_libs': [], 'cases': [],
+                                 'star': True})
+        return
     live_paths = [k for k, d in ress[0]['paths'] if k in ('return', 'raise')]
     if not live_paths and not unsupported:
         chk.obligation(pre + 'vacuity', spec.name, 'checker', report.ERROR, 0.0, detail='no terminating path explored')
@@ -1552,6 +1558,17 @@ def settle_falsification(chk, jobs):
     results = (out or {}).get('results') or [None] * len(jobs)
     for j, r in zip(jobs, results):
         d = dict(j['detail'])
+        if j.get('star'):
+            viol = (r or {}).get('violated') or {}
+            for cl, rv in sorted(viol.items()):
+                rep = {'runner': rv.get('runner'), 'clause': cl, 'labels': rv.get('input'), 'params': rv.get('params'), 'observed': rv.get('observed')}
+                chk.obligation('C18.%s.%s' % (j['spec'].name, cl), j['spec'].name, 'native-replay (bounded stand-in)', report.VIOLATED, 0.0,
+                               detail={'refuted_by': 'failing input found on the real code by the native battery; the symbolic check of this function left the '
+                                                     'supported subset (reported separately)', 'evaluated_arrays': (r or {}).get('evaluated')},
+                               model='labels=%s params=%s observed=%s' % (rv.get('input'), rv.get('params'), rv.get('observed')), replay=rep, reproduced=True)
+            chk.bounded_standin('native battery for %s (function outside the supported subset)' % j['spec'].name, 'deterministic battery of label arrays, length 1..6',
+                                'violated clauses: %s' % sorted(viol), detail=(r or {}).get('evaluated'))
+            continue
         if j['bad_libs']:
             d['false_library_assumption'] = 'the installed library violates the assumed contract(s) %s (replay/c18_conformance.py)' % j['bad_libs']
         if r and r.get('found'):
